@@ -1,5 +1,7 @@
-"""C20 — byte-range locks (reference model ByteRangeLocks.tla)."""
+"""C20 — byte-range locks: the lock table itself (reference model
+ByteRangeLocks.tla) and its use through the NFSv4.0/4.1 servers (checks/nfs.py)."""
 from lib import vlib
+from checks import nfs
 
 DEPS = ["ByteRangeLocks.tla"]
 TRACE = "ByteRangeLocksTrace.tla"
@@ -33,16 +35,27 @@ def run(ctx):
     vlib.validate_traces(ctx, out2 + "/trace.ndjson", TRACE, "Trace_ByteRangeLocks.cfg", DEPS, "enum", classify=classify, timeout=1800)
     import json
     meta = json.load(open(out2 + "/meta.json"))
+    # 3b. owners of different clients asking at the same moment (real parallelism)
+    rbin = vlib.go_build_test(ctx, "lockrace")
+    out3 = ctx.sub("race")
+    rc, o = vlib.run_driver(rbin, "TestRace", out3, ctx.seed, env={"VERIF_N": 400 if ctx.quick() else 4000})
+    if rc != 0:
+        raise vlib.Infra("lock race driver failed:\n" + o[-2000:])
+    vlib.validate_traces(ctx, out3 + "/trace.ndjson", "LockRaceTrace.tla", "Trace_LockRace.cfg", [], "race", classify=classify, max_failures=3)
+    # 4. NFS level: LOCK/LOCKT/LOCKU/CLOSE/lease expiry of the NFSv4.0 and 4.1 servers
+    nfs_rule = nfs.run_parts(ctx)
     return vlib.finish(
         ctx,
-        rule="TLC explores the per-byte reference table exhaustively (3 owners, 4 bytes); the real ByteRangeLockSet is driven by seeded random histories (Test-then-Set convention, ranges up to the maximum offset) and by a breadth-first enumeration of every operation from every reachable list state of a small domain; TLC validates every recorded reply and list against the reference (list must denote the table, Test denies iff conflict, reported lock really conflicts, delta = change in entry count). Distinct = distinct spec states + validated events.",
+        rule="TLC explores the per-byte reference table exhaustively (3 owners, 4 bytes); the real ByteRangeLockSet is driven by seeded random histories (Test-then-Set convention, ranges up to the maximum offset) and by a breadth-first enumeration of every operation from every reachable list state of a small domain; TLC validates every recorded reply and list against the reference (list must denote the table, Test denies iff conflict, reported lock really conflicts, delta = change in entry count). Distinct = distinct spec states + validated events. NFS level: " + nfs_rule,
         explanation="reference-model conformance of byte_range_lock_set.go",
-        exhaustive=True,
-        extra={"enumeration": meta},
+        exhaustive=False,
+        extra={"enumeration": meta, "exhaustive_part": "table level: every operation from every reachable list state of the small domain"},
     )
 
 
 def replay(ctx, path):
-    import shutil
+    import os
+    if "nfs4" in os.path.basename(path):
+        return nfs.replay(ctx, path)
     vlib.validate_traces(ctx, path, TRACE, "Trace_ByteRangeLocks.cfg", DEPS, "replay", classify=classify)
     return vlib.finish(ctx, rule="replay of a saved trace", explanation="replay")
